@@ -84,7 +84,8 @@ def _post(lines, verdicts):
         for key, floor in (("tablet_set_cases", min(len(lines) // 20, 20000)), ("tablet_set_cases_nonempty", min(len(lines) // 100, 5000)),
                            ("tablet_set_cases_nonempty_dc_restricted", min(len(lines) // 300, 1500)),
                            ("token_ring_cases_with_a_nonzero_shard", len(lines) // 10),
-                           ("unrestricted_nts_cases", len(lines) // 10), ("cases_on_rings_with_a_repeated_token", len(lines) // 100)):
+                           # thorough tier (about 1.5e6 lines) generates every datacenter restriction: the unrestricted share is 12.3 %, not 24 %
+                           ("unrestricted_nts_cases", len(lines) // (12 if len(lines) >= 1000000 else 10)), ("cases_on_rings_with_a_repeated_token", len(lines) // 100)):
             if k[key] < floor:
                 out.append(("diff", lines[0], f"diff generator floor: {key}={k[key]} < {floor}"))
     member_only = sum(1 for ln in lines if " M:" in ln.split("|", 1)[-1])
@@ -134,12 +135,12 @@ SPEC = {
              "(ring, precomputed set, strategy, restriction, token) with len, into_iter, nth(0..len+1), choose for every "
              "scripted index, choose_filtered, into_replicas_ordered, get_token_endpoints, three interleavings of next()/nth(n) with size_hint() before and after every operation, the shards yielded (nodes with and without sharder) and the answer of a ClusterState "
              "built without keyspaces. Kind T (per topology): 1..4 tablets learnt through the real update_tablets (overlapping ones, unknown hosts), queries x {unrestricted, ring datacenters, absent datacenter} x tokens inside / at the borders of / between tablets: len, into_iter, nth, choose, ordered view and one next/nth interleaving with size_hint, all with the tablets' shards. non-trivial = ring not empty; distinct = distinct case lines"),
-    "nontrivial": lambda ln: " - " not in ln.split("|")[0][:40] and len(ln.split(" ")) > 6 and ln.split(" ")[2] != "-",
+    "nontrivial": lambda ln: len(ln.split(" ")) > 6 and ln.split(" ")[2] != "-",
     "trusted_base": [
         "spec_simple / spec_nts_dc / spec_nts are the placement rules transcribed from the property text (SimpleStrategy: first RF distinct nodes clockwise; NTS: per datacenter, rack new or repeats allowed, until min(RF, nodes))",
         "hook scylla::cluster::verif_state::cluster_state_via_new (the real ClusterState::new on a Metadata value with a reject-all host filter: pool-less nodes) and scylla::routing::verif_locator::choose_filtered (scripted rand draws; lines whose index could not be scripted are counted and capped)",
         "hooks verif_node_flags::set_node_sharder (per-host Node::sharder override) and verif_state::learn_tablet_from_payload (the real RawTablet::from_custom_payload + ClusterState::update_tablets)",
-        "the property predicates evaluated on the implementation's own output (placement_ok, ordered_ok, views_ok, precomputed_ok) are extracted Coq with soundness / model theorems; the kind-T consistency test (views describe one multiset) and the enumeration of token-order variants on rings with a repeated token are OCaml code of the driver",
+        "the property predicates evaluated on the implementation's own output (placement_ok, ordered_ok, views_ok, precomputed_ok) are extracted Coq: meaning theorems (<->) for three of them (ordered_ok has none), model theorems for all four (for views_ok the choose_filtered conjunct is a premise of C04_views_ok_model and the endpoints argument is the iteration itself); the kind-T consistency test (len, nth, ordered view as a multiset, number and membership of choose results, the interleaving through extracted plist_run - all against the implementation's own into_iter) and the enumeration of token-order variants on rings with a repeated token (at most 720 orders; above that a placement / ring-order failure is reported as diff) are OCaml code of the driver",
         "shard_of is C11's model function (C11_shard_spec / C11_shard_lt are not re-imported); a shard or size_hint mismatch alone is a diff",
     ],
     "assumptions": [
